@@ -4,6 +4,7 @@ import (
 	"fmt"
 	"os"
 	"path/filepath"
+	"regexp"
 	"strconv"
 	"strings"
 	"sync"
@@ -33,6 +34,8 @@ var c13Inputs = []struct{ id, src string }{
 	{"two-interfaces", cliInputs[2].src},
 	{"three-interfaces", "//go:build convergen\n\npackage p\n\nimport \"example.com/m/ext\"\n\ntype S struct {\n\tA int\n\tL []int\n}\n\ntype D struct {\n\tA ext.EInt\n\tL []ext.EInt\n}\n\n// :typecast\ntype Convergen interface {\n\tZeta(*S) *D\n\tAlpha(*S) *D\n}\n\n// :convergen\ntype B interface {\n\tMid(*S) *D\n}\n\nvar Between = 1\n\n// :convergen\n// :typecast\ntype A interface {\n\t// :recv s\n\tLast(*S) *D\n}\n"},
 	{"rejected", "//go:build convergen\n\npackage p\n\nimport _ \"example.com/m/ext\"\n\ntype S struct{ A int }\n\ntype D struct{ A int }\n\ntype Convergen interface {\n\t// :conv ext.Missing A\n\tConv(*S) *D\n}\n"},
+	// :typecast on a pair that is convertible but has no renderable conversion target ([]byte): the tool warns on stderr
+	{"typecast-unsupported-warning", "//go:build convergen\n\npackage p\n\ntype S struct {\n\tToken string\n\tRunes string\n\tA     int\n}\n\ntype D struct {\n\tToken []byte\n\tRunes []rune\n\tA     int\n}\n\n// :typecast\ntype Convergen interface {\n\tConv(*S) *D\n}\n"},
 	{"no-match-warnings", "//go:build convergen\n\npackage p\n\ntype S struct{ A int }\n\ntype D struct {\n\tA int\n\tX int\n\tY string\n}\n\ntype Convergen interface {\n\tConv(*S) *D\n\tConv2(*S) *D\n}\n"},
 }
 
@@ -58,6 +61,7 @@ type c13Env struct {
 	GoFile   int
 	Home     int
 	Tmp      int
+	GoPkg    int // GOPACKAGE as exported by go generate: 0 unset, 1 the name of ANOTHER package (directive in a different package), 2 the setup file's own package
 }
 
 var c13Places = []struct{ id, cwd, path string }{
@@ -114,6 +118,12 @@ func (e *Env) c13Run(base, tag string, in int, env c13Env, countFile string) c13
 	if countFile != "" {
 		extra = append(extra, "VERIF_MAPCOUNT_FILE="+countFile)
 	}
+	switch env.GoPkg {
+	case 1:
+		extra = append(extra, "GOPACKAGE=tools", "GOLINE=3")
+	case 2:
+		extra = append(extra, "GOPACKAGE=p", "GOLINE=3")
+	}
 	extra = append(extra, "HOME="+filepath.Join(root, []string{"home1", "home2"}[env.Home]), "TMPDIR="+filepath.Join(root, []string{"tmp1", "tmp2"}[env.Tmp]))
 	res := e.Runner.Run(filepath.Join(root, pl.cwd), args, extra...)
 	ob := c13Obs{Exit: res.Exit, Stdout: res.Stdout, Crashed: res.Crashed() || res.TimedOut}
@@ -131,6 +141,8 @@ func (e *Env) c13Run(base, tag string, in int, env c13Env, countFile string) c13
 	}
 	return ob
 }
+
+var reAddress = regexp.MustCompile(`\b0x[0-9a-f]{8,}\b`)
 
 func factorial(n int) int {
 	f := 1
@@ -185,9 +197,9 @@ func init() {
 		if len(e.Build.UnownedMapRanges) > 0 {
 			e.Rep.Assume("map iteration order is NOT owned for: " + strings.Join(e.Build.UnownedMapRanges, ", ") + " (free-running repetition only for these)")
 		}
-		e.Rep.Rule("8 inputs chosen for import-table and marker exposure (blank+alias imports with clashing package names, :conv pkg.F, imported hook, 2 and 3 converter interfaces, a rejected input, no-match warnings) x " +
+		e.Rep.Rule("12 inputs chosen for import-table and marker exposure (blank+alias imports with clashing package names, :conv pkg.F, imported hook, 2 and 3 converter interfaces, a rejected input, no-match warnings) x " +
 			"environment: marker shape (9, via the nanoid seam) x map-iteration order (every permutation of every executed range-over-map loop for <= 4 keys, one deviation at a time; two deviations in thorough; via the verifseam rewrite) complete, " +
-			"and cwd/path spelling (10 places) x GOFILE vs argument x HOME x TMPDIR x prior content of the output path {none, longer stale file} within 2 deviations of the base environment; oracle O-diff: exit status, output bytes, stdout and stderr (scratch path spellings tokenised) identical to the base environment; " +
+			"and cwd/path spelling (10 places) x GOFILE vs argument x HOME x TMPDIR x prior content of the output path {none, longer stale file} x GOPACKAGE {unset, another package's name, the setup package's name} within 2 deviations of the base environment; oracle O-diff: exit status, output bytes, stdout and stderr (scratch path spellings tokenised) identical to the base environment, and no memory address (0x…) anywhere in them; " +
 			"non-trivial = environment differing from base in marker or map order on an input with >= 2 imports or >= 2 interfaces")
 		type job struct {
 			in  int
@@ -228,10 +240,10 @@ func init() {
 			// native (unowned) map order with a pinned marker: the seams must not be what makes it deterministic
 			jobs = append(jobs, job{in, c13Env{Marker: 1, MapOrder: ""}})
 			// environment: <= 2 deviations over (place, gofile, home, tmp, marker{base, other}, map order{asc, desc})
-			rad := []int{len(c13Places), 2, 2, 2, 2, 2, 2}
+			rad := []int{len(c13Places), 2, 2, 2, 2, 2, 2, 3}
 			dev := 2
 			deviate := func(d []int) {
-				env := c13Env{Place: d[0], GoFile: d[1], Home: d[2], Tmp: d[3], Marker: 1 + d[4]*4, MapOrder: []string{"asc", "desc"}[d[5]], Prior: d[6]}
+				env := c13Env{Place: d[0], GoFile: d[1], Home: d[2], Tmp: d[3], Marker: 1 + d[4]*4, MapOrder: []string{"asc", "desc"}[d[5]], Prior: d[6], GoPkg: d[7]}
 				jobs = append(jobs, job{in, env})
 			}
 			var rec func(i, left int, d []int)
@@ -288,6 +300,9 @@ func init() {
 				if j.env.Prior != 0 {
 					devs = append(devs, "prior-output")
 				}
+				if j.env.GoPkg != 0 {
+					devs = append(devs, fmt.Sprintf("gopackage=%d", j.env.GoPkg))
+				}
 				feat := "input=" + c13Inputs[j.in].id + "|dev=" + strings.Join(devs, ",")
 				add := func(key, what string) {
 					fs = append(fs, report.Finding{Key: "C13|" + key + "|" + feat, CellID: fmt.Sprintf("%s_%+v", c13Inputs[j.in].id, j.env), What: what,
@@ -311,6 +326,10 @@ func init() {
 				}
 				if got.Stderr != want.Stderr {
 					add("stderr", fmt.Sprintf("diagnostics differ: %q vs %q", clip(got.Stderr, 200), clip(want.Stderr, 200)))
+				}
+				if a := reAddress.FindString(got.Stderr + got.Stdout + got.Out); a != "" {
+					// a memory address is process state (allocation order, ASLR): it can never be part of a deterministic answer
+					add("address-in-output", "diagnostics or output contain a memory address ("+a+")")
 				}
 				return fs
 			}
